@@ -187,10 +187,14 @@ PLAN = {
                 variants={"crash": [dict(), dict(usage=True)], "boundaries": [dict(), dict(usage=True)]}),
     "C11": _p([], [("time", 8, 11)], ["time"], [], ["P01", "P02"],
               pairs=[("restart", 144, 4000)], pairclause="C11.pair"),
-    "C12": _p(["C12.a", "C12.b", "C12.c"], [("time", 8, 11), ("time2", 7, 10)], ["time", "time2"],
-              ["time", "fanout", "script", "script2", "reuse", "idle"], ["P12"]),
-    "C13": _p(["C13.a", "C13.b", "C13.c"], [("time", 8, 11), ("time2", 7, 10)], ["time", "time2"],
-              ["time", "crowd", "mailbox", "script", "script2", "reuse", "idle"], ["P13"]),
+    # (the second variants: a usage database with a blur interval longer than the expiration time --
+    #  what is kept and what is swept must not depend on it)
+    "C12": dict(_p(["C12.a", "C12.b", "C12.c"], [("time", 8, 11), ("time2", 7, 10)], ["time", "time2"],
+                   ["time", "fanout", "script", "script2", "reuse", "idle"], ["P12"]),
+                variants={"time": [dict(), dict(usage=True, blur=20)], "idle": [dict(), dict(usage=True, blur=20)]}),
+    "C13": dict(_p(["C13.a", "C13.b", "C13.c"], [("time", 8, 11), ("time2", 7, 10)], ["time", "time2"],
+                   ["time", "crowd", "mailbox", "script", "script2", "reuse", "idle"], ["P13"]),
+                variants={"time": [dict(), dict(usage=True, blur=20)]}),
     "C14": _p([], [("core", 9, 12)], ["core"], [], ["P03", "P07", "P08"],
               pairs=[("resend", 120, 4000)], pairclause="C14.pair"),
     "C15": dict(_p(["C15.a", "C15.b", "C15.c"], [("usage", 7, 10), ("usage7", 7, 10)], ["usage", "usage7"],
